@@ -21,4 +21,7 @@ def check(ctx):
         collector.rule_anchor(ctx, c, "R2")
     provrules.rule_stamps(ctx, facts, "R3")
     provrules.rule_elapsed(ctx, facts, "R4")
+    from .c16 import rule_not_recording
+    from ..core import Prov
+    rule_not_recording(ctx, facts, Prov(facts))
     provrules.rule_open_spans(ctx, facts, "R5")
